@@ -45,3 +45,193 @@ Proof. vm_compute. repeat split; reflexivity. Qed.
 
 Print Assumptions C01_enc_writer_canonical.
 Print Assumptions C01_enc_writer_total.
+
+(* ====================================================================================== *)
+(* The typed block stream on top of the layers (work package c01).
+
+   ops: ANY list of writer calls, all of which returned Ok, followed by finalize (Ok too);
+   started 0 ops : the names started (start_file / add_file) with the id each one got;
+   pieces 0 id ops : the concatenation, in call order, of the bytes given for that id
+   (append takes the first `size` bytes of its source; zero-size appends give nothing;
+   add_file = start + append + end).
+   For every FILENAME_MAX_SIZE, pairwise distinct block tags, hash H with 32-byte output and
+   EVERY iteration order of the footer HashMap (any permutation), and for ANY stream S that
+   behaves as a cursor over the block stream (Refines: short reads allowed — this is what
+   each layer reader provides, see C01_enc_layer_transparent), from any state of it.
+   Explicit side conditions: names are valid UTF-8 (Rust &str), the block stream is shorter
+   than 2^64 bytes (u64 positions) and the footer shorter than 2^32 bytes (the code returns
+   SerializationError there; the model has no such check). *)
+From MLA Require Import RoundTripBlocks RoundTripFooter RoundTripReader RoundTripWriter
+  RoundTripRun RoundTripGlue RoundTrip RoundTripInst.
+From MLA.Concrete Require Import Sha256.
+From Coq Require Import Permutation.
+
+(* a serialised block is parsed back over any refining stream, which lands behind the header *)
+Theorem C01_parse_ser_block :
+  forall FNMAX TS TC TA TE, tags_distinct TS TC TA TE ->
+  forall (S : Stream) (b : bytes) (R : st S -> N -> Prop), Refines S b R ->
+  forall s pre x post, b = pre ++ ser_block TS TC TA TE x ++ post -> wfb FNMAX x -> R s (len pre) ->
+  exists s', parse_block FNMAX TS TC TA TE S s = (s', Ok (pb_of x)) /\ R s' (len pre + hdr_len x).
+Proof. exact parse_ser_block. Qed.
+
+(* bincode footer map round trip *)
+Theorem C01_parse_ser_footer_map :
+  forall m, wf_footer m -> parse_footer_map (ser_footer_map m) = Some m.
+Proof. exact parse_ser_footer_map. Qed.
+
+(* what a run of successful calls + finalize wrote: the serialised ghost block list (whose
+   per-file projection and run offsets the invariant WInv ties to files_info/ids_info), the
+   end-of-archive tag, the footer *)
+Theorem C01_writer_final :
+  forall FNMAX TS TC TA TE (H : bytes -> bytes) (order : footer -> footer),
+  (forall x, len (H x) = 32) ->
+  forall ops sf rs,
+  wrun FNMAX TS TC TA TE H order w_init (ops ++ [OFinalize]) = (sf, rs) ->
+  Forall (fun r => is_ok r = true) rs -> forallb op_utf8 ops = true ->
+  exists s bl, WInv FNMAX TS TC TA TE H s bl /\ w_open s = [] /\
+    w_out sf = ser_blocks TS TC TA TE bl ++ [TA] ++ ser_footer (order (w_footer s)) /\
+    w_footer sf = w_footer s /\ names_of bl = started 0 ops /\
+    (forall id, concat (datas id bl) = pieces 0 id ops).
+Proof. exact writer_final. Qed.
+
+(* 1. the reader opens (footer found and parsed, source rewound) *)
+Theorem C01_open :
+  forall FNMAX TS TC TA TE (H : bytes -> bytes) (order : footer -> footer),
+  (forall x, len (H x) = 32) -> (forall f, Permutation (order f) f) ->
+  forall ops sf rs,
+  wrun FNMAX TS TC TA TE H order w_init (ops ++ [OFinalize]) = (sf, rs) ->
+  Forall (fun r => is_ok r = true) rs -> forallb op_utf8 ops = true ->
+  len (w_out sf) < 2 ^ 64 -> len (ser_footer_map (order (w_footer sf))) < 2 ^ 32 ->
+  forall (S : Stream) (R : st S -> N -> Prop), Refines S (w_out sf) R ->
+  forall s0 p0, R s0 p0 -> exists r, ropen S s0 = Ok r /\ RS order sf S R r.
+Proof. exact rt_open. Qed.
+
+(* 2. list_files = exactly the started names, each once.  RS r ("r is a reader over this
+   archive") holds after open and is kept by get_file / get_hash, so 2-5 hold after any
+   sequence of such calls *)
+Theorem C01_list_files :
+  forall FNMAX TS TC TA TE (H : bytes -> bytes) (order : footer -> footer),
+  (forall x, len (H x) = 32) -> (forall f, Permutation (order f) f) ->
+  forall ops sf rs,
+  wrun FNMAX TS TC TA TE H order w_init (ops ++ [OFinalize]) = (sf, rs) ->
+  Forall (fun r => is_ok r = true) rs -> forallb op_utf8 ops = true ->
+  len (w_out sf) < 2 ^ 64 -> len (ser_footer_map (order (w_footer sf))) < 2 ^ 32 ->
+  forall (S : Stream) (R : st S -> N -> Prop) (r : rstate S), RS order sf S R r ->
+  Permutation (list_files S r) (map fst (started 0 ops)) /\ NoDup (list_files S r).
+Proof. exact rt_list. Qed.
+
+(* 3. get_file: the reported size is the byte count; reading to the end with ANY positive
+   buffer sizes delivers exactly the bytes given, and stops in Finish *)
+Theorem C01_get_file :
+  forall FNMAX TS TC TA TE (H : bytes -> bytes) (order : footer -> footer),
+  tags_distinct TS TC TA TE -> (forall x, len (H x) = 32) -> (forall f, Permutation (order f) f) ->
+  forall ops sf rs,
+  wrun FNMAX TS TC TA TE H order w_init (ops ++ [OFinalize]) = (sf, rs) ->
+  Forall (fun r => is_ok r = true) rs -> forallb op_utf8 ops = true ->
+  len (w_out sf) < 2 ^ 64 -> len (ser_footer_map (order (w_footer sf))) < 2 ^ 32 ->
+  forall (S : Stream) (R : st S -> N -> Prop), Refines S (w_out sf) R ->
+  forall (r : rstate S) name id, RS order sf S R r -> In (name, id) (started 0 ops) ->
+  exists r' bs,
+    get_file FNMAX TS TC TA TE S r name = (r', Ok (Some (bs, len (pieces 0 id ops)))) /\
+    RS order sf S R r' /\
+    forall sizes : nat -> N, (forall i, 0 < sizes i) ->
+    forall fuel, (length (pieces 0 id ops) < fuel)%nat ->
+    exists bs', read_all FNMAX TS TC TA TE S fuel bs sizes 0%nat [] = (bs', Ok (pieces 0 id ops)) /\
+                b_mode bs' = BFinish.
+Proof. exact rt_get_file. Qed.
+
+(* 3'. call by call: every read with a positive buffer is Ok (never Err, never Crash), delivers
+   at most n of the next bytes, and delivers nothing only when all has been delivered *)
+Theorem C01_reads_ok :
+  forall FNMAX TS TC TA TE (H : bytes -> bytes) (order : footer -> footer),
+  tags_distinct TS TC TA TE -> (forall x, len (H x) = 32) -> (forall f, Permutation (order f) f) ->
+  forall ops sf rs,
+  wrun FNMAX TS TC TA TE H order w_init (ops ++ [OFinalize]) = (sf, rs) ->
+  Forall (fun r => is_ok r = true) rs -> forallb op_utf8 ops = true ->
+  len (w_out sf) < 2 ^ 64 -> len (ser_footer_map (order (w_footer sf))) < 2 ^ 32 ->
+  forall (S : Stream) (R : st S -> N -> Prop), Refines S (w_out sf) R ->
+  forall (r : rstate S) name id, RS order sf S R r -> In (name, id) (started 0 ops) ->
+  exists r' bs (Inv : bstate S -> bytes -> Prop),
+    get_file FNMAX TS TC TA TE S r name = (r', Ok (Some (bs, len (pieces 0 id ops)))) /\
+    Inv bs (pieces 0 id ops) /\
+    forall b todo n, Inv b todo -> 0 < n ->
+      exists b' d todo', bread FNMAX TS TC TA TE S b n = (b', Ok d) /\ len d <= n /\
+        todo = d ++ todo' /\ Inv b' todo' /\ (d = [] -> todo = [] /\ b_mode b' = BFinish).
+Proof. exact rt_reads_ok. Qed.
+
+(* 4. the stored hash is H of the bytes given *)
+Theorem C01_get_hash :
+  forall FNMAX TS TC TA TE (H : bytes -> bytes) (order : footer -> footer),
+  tags_distinct TS TC TA TE -> (forall x, len (H x) = 32) -> (forall f, Permutation (order f) f) ->
+  forall ops sf rs,
+  wrun FNMAX TS TC TA TE H order w_init (ops ++ [OFinalize]) = (sf, rs) ->
+  Forall (fun r => is_ok r = true) rs -> forallb op_utf8 ops = true ->
+  len (w_out sf) < 2 ^ 64 -> len (ser_footer_map (order (w_footer sf))) < 2 ^ 32 ->
+  forall (S : Stream) (R : st S -> N -> Prop), Refines S (w_out sf) R ->
+  forall (r : rstate S) name id, RS order sf S R r -> In (name, id) (started 0 ops) ->
+  exists r', get_hash FNMAX TS TC TA TE S r name = (r', Ok (Some (H (pieces 0 id ops)))) /\
+             RS order sf S R r'.
+Proof. exact rt_get_hash. Qed.
+
+(* 5. names never started are absent *)
+Theorem C01_absent :
+  forall FNMAX TS TC TA TE (H : bytes -> bytes) (order : footer -> footer),
+  (forall x, len (H x) = 32) -> (forall f, Permutation (order f) f) ->
+  forall ops sf rs,
+  wrun FNMAX TS TC TA TE H order w_init (ops ++ [OFinalize]) = (sf, rs) ->
+  Forall (fun r => is_ok r = true) rs -> forallb op_utf8 ops = true ->
+  len (w_out sf) < 2 ^ 64 -> len (ser_footer_map (order (w_footer sf))) < 2 ^ 32 ->
+  forall (S : Stream) (R : st S -> N -> Prop) (r : rstate S) name, RS order sf S R r ->
+  ~ In name (map fst (started 0 ops)) ->
+  get_file FNMAX TS TC TA TE S r name = (r, Ok None) /\ get_hash FNMAX TS TC TA TE S r name = (r, Ok None).
+Proof. exact rt_absent. Qed.
+
+(* side conditions at the constants of the source: the four block tags translated by Tie A
+   are pairwise distinct; the concrete SHA-256 has 32-byte output *)
+Theorem C01_src_tags_distinct :
+  tags_distinct Src.BT_FileStart Src.BT_FileContent Src.BT_EndOfArchiveData Src.BT_EndOfFile.
+Proof. exact src_tags_distinct. Qed.
+Theorem C01_sha256_len : forall x, len (sha256 x) = 32.
+Proof. exact len_sha256. Qed.
+
+(* non-vacuity: a concrete run (3 files interleaved, an empty piece, add_file, a source longer
+   than announced, footer in reverse order, FILENAME_MAX_SIZE = 48, source tags, SHA-256)
+   meets every hypothesis; it is read through a throttled stream (short reads) *)
+Example C01_nonvacuous_hyps :
+  wrun 48 Src.BT_FileStart Src.BT_FileContent Src.BT_EndOfArchiveData Src.BT_EndOfFile sha256 ex_order
+       w_init (ex_ops ++ [OFinalize]) = (ex_sf, ex_rs) /\
+  Forall (fun r => is_ok r = true) ex_rs /\ forallb op_utf8 ex_ops = true /\
+  len (w_out ex_sf) < 2 ^ 64 /\ len (ser_footer_map (ex_order (w_footer ex_sf))) < 2 ^ 32 /\
+  (forall f, Permutation (ex_order f) f) /\ Refines ex_S (w_out ex_sf) ex_R /\ ex_R ex_s0 0.
+Proof.
+  exact (conj ex_hyp_run (conj ex_hyp_ok (conj ex_hyp_utf8 (conj ex_hyp_len64 (conj ex_hyp_foot32
+          (conj ex_order_perm (conj ex_hyp_refines ex_hyp_R0))))))).
+Qed.
+(* ... what the specification says was written, and the evaluated read-back *)
+Example C01_nonvacuous_spec :
+  started 0 ex_ops = [([97], 0); ([98], 1); ([99; 195; 169], 2)] /\
+  pieces 0 0 ex_ops = [1; 2; 3; 4] /\ pieces 0 1 ex_ops = [7; 8] /\ pieces 0 2 ex_ops = [5; 6].
+Proof. exact ex_spec. Qed.
+Example C01_nonvacuous_readback :
+  ex_list = Some [[99; 195; 169]; [98]; [97]] /\
+  ex_read [97] = Some (4, Ok [1; 2; 3; 4], true, Ok (Some (sha256 [1; 2; 3; 4]))) /\
+  ex_read [98] = Some (2, Ok [7; 8], true, Ok (Some (sha256 [7; 8]))) /\
+  ex_read [99; 195; 169] = Some (2, Ok [5; 6], true, Ok (Some (sha256 [5; 6]))) /\
+  ex_absent [100] = Some (Ok None, Ok None).
+Proof. exact ex_readback. Qed.
+
+Check C01_get_file.
+Print Assumptions C01_parse_ser_block.
+Print Assumptions C01_parse_ser_footer_map.
+Print Assumptions C01_writer_final.
+Print Assumptions C01_open.
+Print Assumptions C01_list_files.
+Print Assumptions C01_get_file.
+Print Assumptions C01_reads_ok.
+Print Assumptions C01_get_hash.
+Print Assumptions C01_absent.
+Print Assumptions C01_src_tags_distinct.
+Print Assumptions C01_sha256_len.
+Print Assumptions C01_nonvacuous_hyps.
+Print Assumptions C01_nonvacuous_spec.
+Print Assumptions C01_nonvacuous_readback.
